@@ -515,18 +515,33 @@ func alphabet(m *tbin.Val, s *tbin.Shape, cfg config, touched map[string]bool, i
 			if cp.s != nil {
 				switch cp.v.KT {
 				case tbin.STRING:
-					key := "newkey"
-					ops = append(ops, op{Kind: "insert", At: cp.path, PE: tutil.PE{K: 's', S: key}, Val: fresh(cp.s.Elem, 1, 9), Trig: "absent-in:" + k})
-				case tbin.BYTE, tbin.I16, tbin.I32, tbin.I64:
-					key := 111
-					has := false
-					for _, x := range cp.v.K {
-						if int(x.I) == key {
-							has = true
+					// "": the key an empty slot would report
+					for _, key := range []string{"newkey", ""} {
+						has := false
+						for _, x := range cp.v.K {
+							if string(x.S) == key {
+								has = true
+							}
+						}
+						if !has {
+							ops = append(ops, op{Kind: "insert", At: cp.path, PE: tutil.PE{K: 's', S: key}, Val: fresh(cp.s.Elem, 1, 9), Trig: "absent-in:" + k})
 						}
 					}
-					if !has {
-						ops = append(ops, op{Kind: "insert", At: cp.path, PE: tutil.PE{K: 'k', I: key}, Val: fresh(cp.s.Elem, 1, 9), Trig: "absent-in:" + k})
+				case tbin.BYTE, tbin.I16, tbin.I32, tbin.I64:
+					// -1 / 0: the keys an empty slot would report
+					for _, key := range []int{111, -1, 0} {
+						if key < 0 && cp.v.KT == tbin.BYTE {
+							continue // byte keys are addressed as 0..255 by this harness: -1 would be a second spelling of 255
+						}
+						has := false
+						for _, x := range cp.v.K {
+							if int(x.I) == key {
+								has = true
+							}
+						}
+						if !has {
+							ops = append(ops, op{Kind: "insert", At: cp.path, PE: tutil.PE{K: 'k', I: key}, Val: fresh(cp.s.Elem, 1, 9), Trig: "absent-in:" + k})
+						}
 					}
 				}
 			}
